@@ -6,7 +6,7 @@ package accumulation
 // Program family: a callee `func callee() (*int, error)` with two return statements chosen from
 // {nil,nil | new(int),nil | nil,errA | new(int),errA} (the first behind an opaque flag, or behind the
 // callee's own `if e := other(); e != nil { return nil, e }`), optionally forwarded by `return callee()`,
-// and a caller in one of eleven forms: proper `!= nil` check, proper `== nil` check, no check, blank error,
+// and a caller in one of thirteen forms: proper `!= nil` check, proper `== nil` check, no check, blank error,
 // check without return, error variable overwritten by an assignment or by the next call's `:=` before the
 // check, comparison with a sentinel instead of nil (three spellings), two checked calls.
 //
@@ -44,7 +44,7 @@ func Harness_P08() {
 	flag0, flag2 := ndBool("flag0"), ndBool("flag2")
 	var b strings.Builder
 	b.WriteString("package p\n\ntype myErr struct{}\n\nfunc (*myErr) Error() string { return \"e\" }\n\n")
-	b.WriteString("var errA error = &myErr{}\nvar errB error = &myErr{}\nvar flag0, flag2, flag3 bool\n\n")
+	b.WriteString("var errA error = &myErr{}\nvar errB error = &myErr{}\nvar flag0, flag2, flag3, flag4 bool\n\n")
 	b.WriteString("func other() error {\n\tif flag2 {\n\t\treturn errB\n\t}\n\treturn nil\n}\n\n")
 	b.WriteString("func callee2() (*int, error) { return new(int), nil }\n\n")
 	otherNil := ndNot(flag2)
@@ -93,7 +93,7 @@ func Harness_P08() {
 	}
 
 	// the caller
-	form := ndChoice("caller_form", 11)
+	form := ndChoice("caller_form", 13)
 	proper := false
 	var panics bool
 	b.WriteString("func Entry() int {\n")
@@ -128,6 +128,14 @@ func Harness_P08() {
 	case 10:
 		b.WriteString("\tv, err := " + f + "()\n\tif err != errA {\n\t\treturn 0\n\t}\n\treturn *v\n")
 		panics = ndAnd(res.eIsA, res.vnil)
+	case 11: // the check combined with another condition by ||: still sufficient
+		fl := ndBool("flag4")
+		b.WriteString("\tv, err := " + f + "()\n\tif err != nil || flag4 {\n\t\treturn 0\n\t}\n\treturn *v\n")
+		panics, proper = ndAnd(ndAnd(res.enil, ndNot(fl)), res.vnil), true
+	case 12: // the check combined with another condition by &&: not sufficient
+		fl := ndBool("flag4")
+		b.WriteString("\tv, err := " + f + "()\n\tif err != nil && flag4 {\n\t\treturn 0\n\t}\n\treturn *v\n")
+		panics = ndAnd(ndNot(ndAnd(ndNot(res.enil), fl)), res.vnil)
 	default:
 		b.WriteString("\tv, err := " + f + "()\n\tw, err := callee2()\n\tif err != nil {\n\t\treturn 0\n\t}\n\treturn *v + *w\n")
 		panics = res.vnil
